@@ -364,13 +364,22 @@ def pairs(tier):
         out.append(((MATCH_OPS[6], MATCH_OPS[7]), 1, False))
         out.append(((MATCH_OPS[8], MATCH_OPS[7]), 1, False))
         return out
-    for a, b in itertools.product(range(len(COMPILE_OPS)), repeat=2):
+    # unordered pairs: which thread starts is itself a (free) scheduling choice, so (a, b) and (b, a) explore the same schedules
+    for a, b in itertools.combinations_with_replacement(range(len(COMPILE_OPS)), 2):
         out.append(((COMPILE_OPS[a], COMPILE_OPS[b]), 1, False))
-        out.append(((COMPILE_OPS[a], COMPILE_OPS[b]), 1, True))        # opcode granularity in the tokenizer
-    for a, b in itertools.product(MATCH_OPS[:9], MATCH_OPS[:9] + COMPILE_OPS[:3] + COMPILE_OPS[6:]):
-        out.append(((a, b), 1, False))
-    for a, b in itertools.product(MATCH_OPS[9:], MATCH_OPS[9:] + COMPILE_OPS[:1] + MATCH_OPS[:2]):
-        out.append(((a, b), 1, False))
+        if b < 6:
+            out.append(((COMPILE_OPS[a], COMPILE_OPS[b]), 1, True))        # opcode granularity in the tokenizer
+    M, I = MATCH_OPS[:9], MATCH_OPS[9:]
+    for a, b in itertools.combinations_with_replacement(range(len(M)), 2):
+        out.append(((M[a], M[b]), 1, False))
+    for a in M:
+        for b in COMPILE_OPS[:3] + COMPILE_OPS[6:]:
+            out.append(((a, b), 1, False))
+    for a, b in itertools.combinations_with_replacement(range(len(I)), 2):
+        out.append(((I[a], I[b]), 1, False))
+    for a in I:
+        for b in COMPILE_OPS[:1] + MATCH_OPS[:2]:
+            out.append(((a, b), 1, False))
     core = [0, 1, 5]        # bound 2 costs the square of the number of scheduling points: the short compiles only
     for a, b in itertools.combinations_with_replacement(core, 2):
         out.append(((COMPILE_OPS[a], COMPILE_OPS[b]), 2, False))
